@@ -1,6 +1,6 @@
 """C09 — any load / modify / save history leaves correct files and a live process.
 
-Histories over {load(p, mmap), get_fdata, uncache, edit header field, set affine, set_data_dtype, save(p),
+Histories over {load(p, mmap), get_fdata, uncache, edit header field, set affine (image API), edit the header affine fields, set_data_dtype, save(p),
 to_bytes} with p in {a.nii, a.nii.gz, b.nii, a.img(+a.hdr), a.mgh, a.mgz}.  Every history runs in a CHILD
 process (batched; a dying child is an observable, not an infrastructure failure).  The observable line is compared
 string-equal with the Lean model (Model/C09.lean via Driver/C09.lean); the oracle is computed in the child from the
@@ -38,6 +38,7 @@ THEOREMS = [
     'Nb.C09.current_stale_fdata_alias_counterexample',
     'Nb.C09.orig_safe_off_source',
     'Nb.C09.guard_is_tight',
+    'Nb.C09.save_ignores_header_affine_edit',
     'Nb.C09.generated_tables_agree',
 ]
 ASSUMPTIONS = [
@@ -54,10 +55,11 @@ ASSUMPTIONS = [
     'OPEN finding (guard of history_safe_partial): after a save onto the live image\'s own source path that changes '
     'the on-disk layout (dtype/scaling) the live image reads through a stale proxy / stale float64 memmap cache',
 ]
-RULE = ('streams: selfsave (the repaired defect: load p, [ops], save p ... for every path x mmap x dtype x small/big '
+RULE = ('streams: hdraffine (header sform/qform edited directly or via the image API, then first/second save to every '
+        'same- and other-flavour target); selfsave (the repaired defect: load p, [ops], save p ... for every path x mmap x dtype x small/big '
         'shape); spelling (self-overwrite where load and save name the same file differently: absolute, relative, ./, '
-        'sub/../, symlink, hard link, pair header name — all pairs of spellings, every path); exh3/exh4/exh5: first op load(p, mmap) then ALL suffixes over the op alphabet (26 ops: 12 loads, 6 '
-        'saves, 3 set_data_dtype, get_fdata, uncache, edit, set affine, to_bytes; exh5 / quick exh4 over a 15-op '
+        'sub/../, symlink, hard link, pair header name — all pairs of spellings, every path); exh3/exh4/exh5: first op load(p, mmap) then ALL suffixes over the op alphabet (27 ops: 12 loads, 6 '
+        'saves, 3 set_data_dtype, get_fdata, uncache, edit, set affine, header-affine edit, to_bytes; exh5 / quick exh4 over a 16-op '
         'sub-alphabet); random: length 4-12, random initial dtypes, absent files, 10% big (multi-page) arrays. '
         'A case is non-trivial when it contains a load and a save; distinct by (init, ops, big).')
 
@@ -171,8 +173,8 @@ def case_from_data(d):
 
 
 FULL_ALPHA = ([f'L{p}{m}' for p in range(6) for m in (1, 0)] + [f'S{p}' for p in range(6)] +
-              ['Di16', 'Df32', 'Df64', 'F', 'U', 'E1', 'A6', 'B'])
-SMALL_ALPHA = [f'L{p}1' for p in range(6)] + [f'S{p}' for p in range(6)] + ['Df32', 'F', 'U']
+              ['Di16', 'Df32', 'Df64', 'F', 'U', 'E1', 'A6', 'H7', 'B'])
+SMALL_ALPHA = [f'L{p}1' for p in range(6)] + [f'S{p}' for p in range(6)] + ['Df32', 'F', 'U', 'H7']
 INIT_MIXED = ['i16', 'f32', 'f64', 'u8', 'i32', 'f32']
 INIT_I16 = ['i16'] * 6
 
@@ -220,6 +222,22 @@ def spelling_cases():
     return out
 
 
+def hdraffine_cases():
+    """header affine fields edited directly (H: header only, img.affine unchanged; sform, or sform cleared + qform)
+    or through the image API (A: img.affine changes), then a FIRST save to every target (same and other flavour /
+    format) and a second save to every target"""
+    out = []
+    for p in range(6):
+        for e in ('H6', 'H7', 'A6', 'A7'):
+            for q in range(6):
+                out.append(mk_case(INIT_I16, [f'L{p}1', e, f'S{q}'], False, 'hdraffine'))
+                for r in range(6):
+                    out.append(mk_case(INIT_I16, [f'L{p}0', e, f'S{q}', f'S{r}'], False, 'hdraffine'))
+                    out.append(mk_case(INIT_I16, [f'L{p}1', e, f'S{q}', 'H6' if e != 'H6' else 'H7', f'S{r}', 'B'], False,
+                                       'hdraffine'))
+    return out
+
+
 def exhaustive(init, first, alpha, n, stream):
     out = []
     for f in first:
@@ -256,8 +274,10 @@ def rand_op(rng):
         return 'U'
     if r < 0.89:
         return 'E%d' % rng.choice([1, 2, 3])
-    if r < 0.95:
+    if r < 0.92:
         return 'A%d' % rng.choice([6, 7])
+    if r < 0.97:
+        return 'H%d' % rng.choice([6, 7])
     return 'B'
 
 
@@ -287,7 +307,7 @@ def random_cases(rng, n, safe_bias=0.7):
 
 
 def cases(rng, tier):
-    out = selfsave_cases() + spelling_cases()
+    out = selfsave_cases() + spelling_cases() + hdraffine_cases()
     first_all = [f'L{p}{m}' for p in range(6) for m in (1, 0)]
     first_mm = [f'L{p}1' for p in range(6)]
     if tier == 'quick':
@@ -700,6 +720,20 @@ def _child(jobfile, outfile, workdir):
                     img.set_sform(A, code=2)
                     img.set_qform(A, code=2)
                 tok = 'ok'
+            elif c == 'H':
+                # edit the HEADER's affine fields directly; img.affine is untouched
+                kk = int(op[1:])
+                B = aff_for(kk)
+                if isinstance(img, nib.MGHImage):
+                    tmp = nib.MGHImage(np.zeros(shape, np.float32), B)
+                    for f in ('delta', 'Mdc', 'Pxyz_c'):
+                        img.header[f] = tmp.header[f]
+                elif kk % 2:
+                    img.header.set_sform(None, code=0)
+                    img.header.set_qform(B, code=2)
+                else:
+                    img.header.set_sform(B, code=2)
+                tok = 'ok'
             elif c == 'D':
                 try:
                     img.set_data_dtype(np.dtype(NP_DT[op[1:]]))
@@ -784,7 +818,7 @@ def _child(jobfile, outfile, workdir):
                     fi = str(PATHS.index(fn)) if fn in PATHS else '-'
                     emit(i=i, tok='live=' + '/'.join([CLS.get(type(img).__name__, type(img).__name__),
                                                       dtname(img.get_data_dtype()), tag_of(img), aff_id(img.affine),
-                                                      fi, d1, d2]))
+                                                      'h' + aff_id(img.header.get_best_affine()), fi, d1, d2]))
         if not dead:
             fin = []
             for p in range(6):
